@@ -263,6 +263,19 @@ impl TypeInfoContext {
 
 fn keep_parentheses(internal_type: &TypeInfo, context: TypeInfoContext) -> bool {
     match internal_type {
+        // `C | (| A | B)`: without the parentheses the inner leading separator would follow the outer one
+        TypeInfo::Union(union)
+            if union.leading().is_some()
+                && (context.contains_union || context.contains_intersect) =>
+        {
+            true
+        }
+        TypeInfo::Intersection(intersection)
+            if intersection.leading().is_some()
+                && (context.contains_union || context.contains_intersect) =>
+        {
+            true
+        }
         TypeInfo::Callback { .. }
             if context.within_optional
                 || context.within_variadic
